@@ -12,8 +12,8 @@ Cand(nd, sh) ==
             g0 : {L \in SUBSET Perms(nd) : Cardinality(L) \in {1, 2}},
             g1 : {{}} \cup {{o} : o \in Perms(nd)}, g2 : {{}} \cup {{o} : o \in Perms(nd)}] :
         /\ c.g1 \cup c.g2 # {}
-        /\ Fits(c.sh, c.g0, Pad(c.np, nd)) /\ Connected(c.g0, Pad(c.np, nd))
-        /\ Fits(c.sh, c.g1, Pad(<<c.np[1]>>, nd)) /\ Fits(c.sh, c.g2, Pad(<<c.np[2]>>, nd))
+        /\ GridFits(c.sh, c.g0, Pad(c.np, nd)) /\ Connected(c.g0, Pad(c.np, nd))
+        /\ GridFits(c.sh, c.g1, Pad(<<c.np[1]>>, nd)) /\ GridFits(c.sh, c.g2, Pad(<<c.np[2]>>, nd))
         \* a single-direction group must share its distributed dimension with some 2-D layout at the matching position
         /\ \A o \in c.g1 : \E q \in c.g0 : q[1] = o[1] \/ q[2] = o[1]
         /\ \A o \in c.g2 : \E q \in c.g0 : q[1] = o[1] \/ q[2] = o[1]}
